@@ -213,6 +213,7 @@ type (
 	View struct {
 		mgr *Manager
 
+		fetched  bool
 		indexes  []*index.Reader
 		releaser indexReleaser
 
@@ -2414,9 +2415,11 @@ func (mgr *Manager) GetView() View {
 }
 
 func (v *View) fetch() error {
-	if len(v.indexes) != 0 {
+	// a view is fetched once, also when there are no indexes yet
+	if v.fetched {
 		return nil
 	}
+	v.fetched = true
 	v.tagDetails = make(map[string]query.TagDetails)
 	v.tagConverters = make(map[string][]string)
 	v.converters = make(map[string]index.ConverterAccess)
